@@ -64,7 +64,8 @@ CHECKS = {
              "handlers and close_service and of each client command; the component is killed immediately before each mutation and "
              "with torn first/last writes, restarted on the same directory, the interrupted command is re-run and the workflow "
              "finished: the handshake must succeed with a state matching the files on disk and all searches must equal DB[w]. "
-             "Quick: PiBas, 1 database (about 90 crash scenarios); thorough: 3 schemes x 3 databases.",
+             "Also killed right after every open-for-write. Children have a TMPDIR on another file system, no CAP_DAC_OVERRIDE, own hash "
+             "seeds; a sample runs under -O. Quick: PiBas, 1 database (about 150 crash scenarios); thorough: 3 schemes x 3 databases.",
         note="No fsync / power-loss reordering model, no disk-full; client and server use separate scratch HOMEs."),
     "C01": dict(
         category="exploration", design="DESIGN.md §3 C01",
@@ -104,7 +105,8 @@ CHECKS = {
                   "keyed labels/tokens",
         text="Database shapes are Hypothesis-generated (incl. one identifier under every keyword) and contents are DRBG output long "
              "enough that an accidental hit is < 1e-15; EDB and token bytes must not contain any keyword or (except SSE-2) "
-             "identifier, all ciphertext blocks of one index are distinct, two setups of the same (key, DB) share no block, and "
+             "identifier, all ciphertext blocks of one index are distinct, two setups of the same (key, DB) share no block (same process, "
+             "fresh interpreters, forked workers, global random seeded identically before each), and "
              "labels/tokens under two keys share nothing.",
         note="Necessary conditions on bytes only; nothing about semantic security. SSE-2 identifiers are exempt by construction."),
     "C05": dict(
@@ -123,7 +125,8 @@ CHECKS = {
                   "false-alarm bounds < 1e-15, incl. a setup in a fresh interpreter and databases with more than 2^16 table entries",
         text="(i) For the four CJJ14 schemes, CT14 and ANSS16 the keys of every table of the serialized index are ascending and the "
              "(real) label sequence is invariant under permuting the input order. (ii) For PiPtr, Pi2Lev, SSE-1 and DP17 the slots "
-             "read by Search differ between two setups, are not the sequential allocation, and DP17 buckets are not in un-shuffled "
+             "read by Search differ between two setups (also in another process, in workers forked with a shared scheme object, and after "
+             "identical other use of the library), are not the sequential allocation, and DP17 buckets are not in un-shuffled "
              "arrangement - each asserted only when correct code would fail with probability < 1e-15 for that case.",
         note="No statistical uniformity test; a weak but non-constant placement is out of reach."),
     "C07": dict(
@@ -132,7 +135,8 @@ CHECKS = {
                   "bytes identical after every step, answers stable)",
         text="Generated histories of present/absent/repeated/fresh-token/reused-token searches (<= 15 quick, <= 40 thorough) run "
              "against one index per case; DB, config dict, module DEFAULT_CONFIG, key bytes and token bytes must be unchanged, "
-             "EDB.serialize() byte-identical after every step, and every answer equal to DB.get(w, empty) and to its first answer.",
+             "EDB.serialize() byte-identical after every step, and every answer equal to DB.get(w, empty) and to its first answer - also "
+             "when the caller modifies the result lists it is given and across up to 32 index generations built by one scheme object.",
         note="Explicit mutators (scan_database_and_update_config_dict, the client's salt) are outside the property."),
     "C08": dict(
         category="exploration", design="DESIGN.md §3 C08",
@@ -203,7 +207,7 @@ CHECKS = {
                   "list-of-padded-items reference model, directory invariant after every step)",
         text="6400 (quick) / 160000 (thorough) generated histories of up to 25 / 40 operations over arrays with 1..40 items, item "
              "size 1..9 and every chunk size 1..len+2 are executed against SPFLBArray and a list model; every observation, a "
-             "full read after every failing operation, an iterator kept alive across writes, use-after-close, reopen durability and the set of files in the array's "
+             "full read after every failing operation, an iterator kept alive across writes, index-protocol objects, endless value streams, use-after-close, reopen durability and the set of files in the array's "
              "directory are compared after each step.",
         note="A refusal is any raised exception; scratch directories are private to a case."),
     "C20": dict(
@@ -252,11 +256,13 @@ def main():
                      "serves_properties": [c["property_id"] for c in checks],
                      "kind_free_text": "Hypothesis 6.168 generators + explicit oracles (reference models, round-trips, "
                                        "differential and metamorphic relations), exhaustive enumeration of small finite "
-                                       "sub-spaces, atheris coverage-guided stages, 16-way sharding"}],
+                                       "sub-spaces, atheris coverage-guided stages, 16-way sharding; every property's generated "
+                                       "search is repeated at 30 % in child interpreters started with -O"}],
         "checks": checks,
         "not_applicable": [{"property_id": p, "reason": NOT_YET} for p in PROPS if p not in CHECKS],
         "notes": "Checks are pure functions of (/repo working tree, VERIF_SEED, tier). Exit 0 held / 1 VIOLATION / 2 harness "
-                 "error. Known and fixed findings: /verif/known_findings.json.",
+                 "error. Known and fixed findings: /verif/known_findings.json (16 fixed, none open). Sensitivity: 111 mutants "
+                 "(mutants/), 200 independently written breakages in five rounds (seeded/, DESIGN.md 8.5-8.10).",
     }
     with open(os.path.join(HERE, "MANIFEST.json"), "w") as f:
         json.dump(m, f, indent=1)
